@@ -549,6 +549,29 @@ fn divert_script(v: u8) -> Vec<String> {
             l.push("echo mid".into());
             l.push("wait".into());
         }
+        10 | 11 => {
+            // a signal caught while the action of another one runs is handled
+            // when that action has finished - also when the running action
+            // sets the trap of the caught signal again (10: to the same
+            // command; 11: to another command, which is the one to run)
+            l.push("trap 'echo u1' USR1".into());
+            l.push(format!(
+                "trap 'echo in; ( kill -s USR1 $$ ); trap \"echo {}\" USR1; echo out' USR2",
+                if v == 10 { "u1" } else { "u1new" }
+            ));
+            l.push("( kill -s USR2 $$ )".into());
+        }
+        8 | 9 => {
+            // a subshell sets the very trap its parent has (in the subshell it
+            // had been reset to default: the action must be installed again);
+            // 9: the parent's action differs only in the signal it is for
+            l.push("trap 'echo u1' USR1".into());
+            if v == 9 {
+                l.push("trap 'echo u1' USR2".into());
+            }
+            l.push("( trap 'echo u1' USR1; selfkill USR1; echo alive ); echo \"?=$?\"".into());
+            l.push("( trap '' USR2; trap '' USR2; selfkill USR2; echo alive2 ); echo \"?=$?\"".into());
+        }
         6 | 7 => {
             // `exit` without an operand in a trap action: the shell exits with the
             // value `$?` had just before the action - also under errexit (6),
@@ -577,7 +600,7 @@ fn divert_script(v: u8) -> Vec<String> {
 
 fn gen_script(rng: &mut Rng, tier: Tier) -> Script {
     if rng.below(12) == 0 {
-        let v = rng.below(8) as u8;
+        let v = rng.below(12) as u8;
         return Script {
             lines: divert_script(v),
             trap1: true,
@@ -731,6 +754,34 @@ fn check_script(s: &Script, base: &Observed, obs: &Observed) -> Option<Viol> {
         // (3: the trap of USR2 is reset by the action of USR1 while USR2 is pending)
         let want_u2 = if v == 3 { 0 } else { 1 };
         // (0, 1: everything pending has run before the next command `echo then`)
+        if v >= 10 {
+            let want = if v == 10 { "in\nout\nu1\nend\n" } else { "in\nout\nu1new\nend\n" };
+            if obs.stdout != want || obs.status != "exited:0" {
+                return Some((
+                    "lost".into(),
+                    "trap-set-again-while-pending".into(),
+                    format!(
+                        "a trapped signal is caught while the action of another signal runs, and that action sets the trap of the caught signal again: expected stdout {want:?} status exited:0; observed stdout {:?} status {} stderr {:?}",
+                        obs.stdout, obs.status, obs.stderr
+                    ),
+                ));
+            }
+            return None;
+        }
+        if v >= 8 {
+            let want = "u1\nalive\n?=0\nalive2\n?=0\nend\n";
+            if obs.stdout != want || obs.status != "exited:0" {
+                return Some((
+                    "lost".into(),
+                    "subshell-same-trap".into(),
+                    format!(
+                        "a subshell sets the same trap its parent has and sends itself the signal: expected stdout {want:?} status exited:0; observed stdout {:?} status {} stderr {:?}",
+                        obs.stdout, obs.status, obs.stderr
+                    ),
+                ));
+            }
+            return None;
+        }
         if v >= 6 {
             let want = "u1\nexit-trap ?=0\n";
             if obs.stdout != want || obs.status != "exited:0" {
